@@ -215,6 +215,54 @@ theorem nodata_nsec_sound (z : Zone) (hz : z.WF) (s : List Nsec) (hs : SetOK z s
     (h : verifyNODATANSEC q t (filterToZone z.apex s) = .ok ()) : z.answerClass q t = .nodata :=
   nodata_core hz (filter_genuine hz hs) hq t h
 
+/-! ## denial records are never wildcard expansions (`signatureMatchesRRset`, /repo a691674) -/
+
+/-- **A denial record is signed under its own name.**  If `signatureMatchesRRset`
+lets an RRSIG vouch for an NSEC or NSEC3 RRset, the name the signature was
+computed over (`*.<last Labels labels>` when the RRSIG counts fewer labels
+than the owner, RFC 4035 §5.3.2) is the RRset's owner itself: the genuine
+`*.<zone> NSEC …` can not be presented under a concrete owner and then deny,
+as that name's "own" record, its types or the names up to its next name
+(RFC 4035 §2.3, RFC 4592 §4.6).  The owner also lies in the signer zone. -/
+theorem denial_record_never_expansion (signer owner : Name) (sigLabels t : Nat)
+    (ht : t = tNSEC ∨ t = 50) (h : signatureMatches signer owner sigLabels t = true) :
+    signedOwner owner sigLabels = owner ∧ signer <+: owner := by
+  unfold signatureMatches at h
+  simp only [Bool.and_eq_true, decide_eq_true_eq, Bool.not_eq_true', Bool.and_eq_false_iff,
+    Bool.or_eq_false_iff] at h
+  obtain ⟨⟨hlen, hzone⟩, hexp⟩ := h
+  refine ⟨?_, List.isPrefixOf_iff_prefix.mp hzone⟩
+  have hnot : wildcardExpanded owner sigLabels = false := by
+    rcases hexp with ⟨h1, h2⟩ | h3
+    · rcases ht with rfl | rfl
+      · simp [tNSEC] at h1
+      · simp at h2
+    · exact h3
+  unfold wildcardExpanded effectiveLabels at hnot
+  unfold signedOwner
+  split
+  · rename_i hlt
+    -- fewer labels than the owner: only possible for a `*`-leaf owner with Labels = length - 1
+    split at hnot
+    · rename_i hstar
+      have hl : sigLabels = owner.length - 1 := by simp at hnot; omega
+      obtain ⟨init, hinit⟩ : ∃ init, owner = init ++ [star] := by
+        rcases List.eq_nil_or_concat owner with h0 | ⟨i, a, h1⟩
+        · subst h0; simp at hlt
+        · refine ⟨i, ?_⟩
+          rw [h1, List.concat_eq_append] at hstar ⊢
+          simp only [List.getLast?_append, List.getLast?_singleton, Option.some_or, Option.some.injEq] at hstar
+          rw [hstar]
+      subst hinit
+      simp [hl]
+    · simp at hnot; omega
+  · rfl
+
+example : signatureMatches [[101]] [[101], [104]] 1 47 = false ∧   -- `h.e NSEC` with Labels 1: an expansion, refused
+    signatureMatches [[101]] [[101], [104]] 2 47 = true ∧
+    signatureMatches [[101]] [[101], star] 1 47 = true ∧            -- the wildcard's own NSEC
+    signatureMatches [[101]] [[101], [104]] 1 1 = true := by decide  -- an expanded A RRset is fine
+
 /-! ## DNAME rewriting of the denied name (`dnsutil.DnameTarget`) -/
 
 /-- **A DNAME rewrites only names strictly below its owner, label by label**
